@@ -776,6 +776,18 @@ class Summarizer:
         v = self.builtin(fname, args, kwargs, st)
         if v is not None:
             return v
+        # any(C(k) for k in (a, b, c)) / all(..) over a literal tuple: the disjunction / conjunction of the instances
+        if fname in ("any", "all") and len(n.args) == 1 and isinstance(n.args[0], (ast.GeneratorExp, ast.ListComp)) and len(n.args[0].generators) == 1:
+            g = n.args[0].generators[0]
+            if isinstance(g.iter, (ast.Tuple, ast.List)) and 1 <= len(g.iter.elts) <= 8 and isinstance(g.target, ast.Name):
+                fs = []
+                for e in g.iter.elts:
+                    s3 = st.fork()
+                    s3.env[g.target.id] = self.expr(e, st)
+                    c = self.cond(n.args[0].elt, s3)
+                    flt = [self.cond(x, s3) for x in g.ifs]
+                    fs.append(And(*(flt + [c])) if fname == "any" else Or(*([Not(x) for x in flt] + [c])))
+                return BoolV(Or(*fs) if fname == "any" else And(*fs))
         # a call of an inlinable helper in expression position (a condition, an operand): the helper's paths become one
         # conditional value; helpers that can raise stay opaque here (statement-level calls are forked by expr_forks)
         if self.depth > 0:
